@@ -17,6 +17,17 @@ def run(ctx):
     ctx.prove()
     st = ctx.correspond("h_wal", "Wal", nontrivial=r"^(append|all|purge|open|crashappend|codec) ")
     hist = st.get("hist", {})
+    series, full, maxfull = 0, 0, 0
+    try:
+        for l in open(st.get("log", "/dev/null"), errors="replace"):
+            if l.startswith("# tornseries"):
+                kv = dict(x.split("=") for x in l.split()[2:])
+                series += 1
+                if kv.get("full") == "true":
+                    full += 1
+                    maxfull = max(maxfull, int(kv.get("len", "0")))
+    except OSError:
+        pass
     return ctx.finish(
         rule="h_wal: one line per operation on the real WriteAheadLog over a real directory (open/append/rotate/close/"
              "purge/all/crash) or per torn-write experiment (fork: the last record of the active file cut at byte n, "
@@ -35,5 +46,7 @@ def run(ctx):
         search=search,
         extra_cov={"torn_offsets": hist.get("torn_0", 0) + hist.get("torn_mid", 0) + hist.get("torn_full", 0),
                    "rotations_by_size": hist.get("append_rotated_by_size", 0),
-                   "exhaustive": False},
+                   "torn_series": series, "torn_series_every_byte_offset": full,
+                   "longest_record_cut_at_every_byte": maxfull,
+                   "exhaustive": full > 0},
     )
